@@ -141,3 +141,40 @@ CONTROLS = [
     ("set the shift of the last bishop magic to 40", "C08.R2", _shift_plus_one),
     ("drop b1 from the a1 rook mask", "C08.R4", _mask_bit),
 ]
+
+
+# ------------------------------------------------------------------ R1: formula shape (K4)
+from analysis import terms as T
+
+
+@rule("C08.R1", "accessor computes SOLUTIONS[((occ & mask) *wrapping factor >> shift) + offset] from MOVES_MAGIC[pos]")
+def r1(ctx):
+    P = ctx.P
+    eng = T.Engine(P)
+    for kind in KINDS:
+        mod, _ = KINDS[kind]
+        key = f"chess_lookup::{kind}_moves"
+        ctx.used_body(key)
+        leaves = eng.tabulate(key)
+        pos, occ = ("param", 0, "pos"), ("param", 1, "all_pieces")
+        magic = ("index", ("obj", ("static", mod + "::MOVES_MAGIC")), ("cast", "usize", ("discr", pos)))
+        f = lambda n: ("field", magic, n)
+        blockers = eng.binop("BitAnd", f("mask"), ("field", occ, "0"))
+        idx = eng.binop("Add", eng.binop("Shr", eng.binop("Mul", blockers, f("factor")), f("shift")), ("cast", "u64", f("offset")))
+        want = ("adt", "chess_bitboard::BitBoard", "BitBoard", (("index", ("obj", ("static", mod + "::SOLUTIONS")), ("cast", "usize", idx)),))
+        rets = {lf.ret for lf in leaves}
+        ok = rets == {want}
+        ctx.ob(f"{kind}_moves formula", ok, f"{key} returns {[T.show(r)[:300] for r in rets]}; expected {T.show(want)[:300]}", site=P.body(key).get("def_span"),
+               sample={"term": T.show(want)[:200]})
+
+
+def _formula_no_mask(P):
+    b = P.own("fns", "chess_lookup::rook_moves")
+    for blk in b["blocks"]:
+        for s in blk["s"]:
+            r = s.get("r", {})
+            if r.get("k") == "bin" and r.get("op") == "BitAnd":
+                r["op"] = "BitOr"
+
+
+CONTROLS.append(("rook_moves ORs the mask instead of ANDing it", "C08.R1", _formula_no_mask))
